@@ -85,6 +85,18 @@ def run(p, report, tier):
                 "(base state never aliases current state)", floor=6)
     report.rule("R19.5", "when the current training triple is restored from the base model, every member comes from "
                 "its own base_* counterpart (sibling agreement)", floor=3)
+    report.rule("R19.6", "the wrapper's twin of the wrapped classifier (self.clf_) is a clone/deepcopy of it; if it is "
+                "rebuilt through a constructor call from the wrapped classifier's parameters (two or more `p=self.clf.p`) "
+                "EVERY constructor parameter is passed - the precomputed-kernel twin must not lose n_neighbors & co.",
+                floor=1)
+    report.rule("R19.7", "`if V is None: f(...) else: f(..., k=W)`: the variable tested is the value passed (whole "
+                "package); testing another variable silently drops computed default weights", floor=2)
+    report.rule("R19.8", "under enforce_unique_samples the selector of the retained training entries depends on the "
+                "VALUES of the current indices and of the added ones (not merely on len(idx_): positions are not "
+                "sample indices)", floor=1)
+    check_reconstruction(p, report)
+    check_none_guard(p, report)
+    check_unique_selector(p, report)
     report.rule("R19.4", "the three predict* siblings are structurally identical up to the delegated method name "
                 "(same NaN guard on the kernel block before the precomputed clone is used); the precomputed kernel "
                 "comes from the wrapped classifier's metric / metric_dict", floor=4)
@@ -199,3 +211,119 @@ def run(p, report, tier):
         report.add("R19.2", f.qual, "all locals bound before use", f"{f.file}:{f.node.lineno}", not da.reports,
                    detail="; ".join(da.reports), nontrivial=False)
     report.assumptions += ["equality with a retrained reference classifier is not decided"]
+
+
+def check_reconstruction(p, report, rule="R19.6"):
+    n = 0
+    icw = p.get_class("IndexClassifierWrapper")
+    for f in icw.methods.values():
+        for c in ast.walk(f.node):
+            if not (isinstance(c, ast.Call) and isinstance(c.func, (ast.Name, ast.Attribute))):
+                continue
+            r = p.resolve_expr(f.module, c.func)
+            if r is None or r[0] != "class":
+                continue
+            bases = {}
+            for k in c.keywords:
+                if k.arg and isinstance(k.value, ast.Attribute) and k.value.attr == k.arg:
+                    bases.setdefault(ast.unparse(k.value.value), []).append(k.arg)
+            src = [(b, ks) for b, ks in bases.items() if b != "self" and len(ks) >= 2]
+            if not src:
+                continue
+            ci = r[1]
+            params = list(p.ctor_params(ci))
+            init = p.find_method(ci, "__init__")
+            pos = [a.arg for a in init.node.args.args][1:] if init else []
+            passed = {k.arg for k in c.keywords if k.arg} | set(pos[:len(c.args)])
+            star = any(k.arg is None for k in c.keywords)
+            missing = [q for q in params if q not in passed]
+            n += 1
+            report.add(rule, f.qual, f"{ci.name} rebuilt from `{src[0][0]}`: {site_id(c, 50)}", f"{f.file}:{c.lineno}",
+                       star or not missing, detail="every constructor parameter is passed" if (star or not missing) else
+                       f"parameters {missing} of `{src[0][0]}` are not carried over: the rebuilt object falls back to their "
+                       "defaults and predicts differently whenever they were set")
+    # the wrapper's own twin of the wrapped classifier is a clone
+    ci = p.get_class("IndexClassifierWrapper")
+    init = ci.methods.get("__init__")
+    for st in ast.walk(init.node):
+        if isinstance(st, ast.Assign) and any(isinstance(t, ast.Attribute) and t.attr == "clf_" for t in st.targets) \
+                and isinstance(st.value, ast.Call):
+            fn = c01.callname(st.value)
+            if fn in ("clone", "deepcopy", "copy"):
+                n += 1
+                report.add(rule, "IndexClassifierWrapper.__init__", f"`{norm_stmt(st, 60)}` copies the wrapped classifier",
+                           f"{init.file}:{st.lineno}", True, detail="all parameters carried by clone/deepcopy")
+    return n
+
+
+def check_none_guard(p, report, rule="R19.7"):
+    n = 0
+    for f in p.all_functions():
+        if "/tests/" in f.file:
+            continue
+        for st in ast.walk(f.node):
+            if not (isinstance(st, ast.If) and isinstance(st.test, ast.Compare) and len(st.test.ops) == 1
+                    and isinstance(st.test.ops[0], (ast.Is, ast.IsNot)) and isinstance(st.test.comparators[0], ast.Constant)
+                    and st.test.comparators[0].value is None and len(st.body) == 1 and len(st.orelse) == 1):
+                continue
+
+            def call_of(x):
+                v = x.value if isinstance(x, (ast.Expr, ast.Assign, ast.Return)) else None
+                return v if isinstance(v, ast.Call) else None
+            a, b = call_of(st.body[0]), call_of(st.orelse[0])
+            if a is None or b is None or ast.unparse(a.func) != ast.unparse(b.func):
+                continue
+            without, with_ = (a, b) if isinstance(st.test.ops[0], ast.Is) else (b, a)
+            kw_without = {k.arg for k in without.keywords}
+            extra = [k for k in with_.keywords if k.arg not in kw_without]
+            if not extra:
+                continue
+            tested = ast.unparse(st.test.left)
+            ok = all(tested in {ast.unparse(x) for x in ast.walk(k.value) if isinstance(x, (ast.Name, ast.Attribute))}
+                     for k in extra)
+            n += 1
+            report.add(rule, f.qual, f"`if {norm_stmt(st.test, 40)}` guards the optional argument of {site_id(with_, 40)}",
+                       f"{f.file}:{st.lineno}", ok, detail="the tested variable is the one passed" if ok else
+                       f"the test reads `{tested}` but the call passes `{ast.unparse(extra[0].value)}`: a value computed "
+                       "for the optional argument is dropped whenever the other variable is None")
+    return n
+
+
+def check_unique_selector(p, report, rule="R19.8"):
+    from .c02 import _value_names
+    ci = p.get_class("IndexClassifierWrapper")
+    n = 0
+    for m in ci.methods.values():
+        for st in ast.walk(m.node):
+            if not (isinstance(st, ast.If) and "enforce_unique_samples" in ast.unparse(st.test)):
+                continue
+            for a in st.body:
+                if isinstance(a, ast.Assign) and len(a.targets) == 1 and isinstance(a.targets[0], ast.Name):
+                    vals = set()
+                    for x in ast.walk(a.value):
+                        pass
+                    txt_names = _value_names(a.value)
+                    attrs = {ast.unparse(x) for x in ast.walk(a.value) if isinstance(x, ast.Attribute)
+                             and isinstance(x.value, ast.Name) and x.value.id == "self"}
+                    # value uses of self.idx_: occurrences not under len()/shape
+                    val_idx = False
+                    parents = {}
+                    for x in ast.walk(a.value):
+                        for ch in ast.iter_child_nodes(x):
+                            parents[ch] = x
+                    for x in ast.walk(a.value):
+                        if isinstance(x, ast.Attribute) and ast.unparse(x) == "self.idx_":
+                            par = parents.get(x)
+                            if isinstance(par, ast.Call) and c01.callname(par) in ("len",):
+                                continue
+                            if isinstance(par, ast.Attribute) and par.attr in ("shape", "size"):
+                                continue
+                            val_idx = True
+                    uses_added = bool({n_ for n_ in txt_names if n_.startswith("add_") or n_ == "idx"})
+                    n += 1
+                    report.add(rule, m.qual, f"unique-sample selector `{norm_stmt(a, 70)}`", f"{m.file}:{a.lineno}",
+                               val_idx and uses_added,
+                               detail="membership of the current index values in the added ones" if (val_idx and uses_added) else
+                               "the selector is computed from positions (len(self.idx_)) instead of the index values: it "
+                               "drops whatever entry sits at the position numbered like the new sample")
+    return n
